@@ -47,7 +47,7 @@ META = {
         "only returns from API calls are counted as progress",
         "failed flag: true for kill, kill_all, kill time, host off, exit(), daemon kill and deadlock; false when the body returns",
     ],
-    "ready": False,
+    "ready": True,
 }
 
 
